@@ -122,6 +122,8 @@ pub struct SimCtx {
     /// file timestamps come from a simulated clock that stands still: every file of the
     /// sandbox shows the same modification time, whenever it was written
     pub frozen_clock: bool,
+    /// start-order seam for threads this process creates (see `ThreadGroup`)
+    pub threads: Option<Arc<ThreadGroup>>,
     in_shim: bool,
 }
 
@@ -141,6 +143,7 @@ impl SimCtx {
             dirs: Vec::new(),
             abandoned: Arc::new(std::sync::atomic::AtomicBool::new(false)),
             frozen_clock: false,
+            threads: None,
             log: Vec::new(),
             fired: Vec::new(),
             gate: None,
@@ -365,16 +368,72 @@ thread_local! {
 
 pub static SEEN_CHILD_THREADS: AtomicU64 = AtomicU64::new(0);
 
+/// Threads a simulated process starts (scoped worker threads of the compiler) are put under a
+/// seeded start order: each child draws a priority from the parent's entropy stream when it is
+/// created, waits a short grace period (so a burst of spawns is complete), and then runs only
+/// when no live sibling with a smaller priority exists. Siblings therefore run one at a time,
+/// to completion, in an order that is a function of the process's entropy seed -- the order in
+/// which their results arrive is decided by the simulator, not by the host's scheduler. A child
+/// that would wait longer than `SIBLING_WAIT` (siblings that depend on each other) runs anyway.
+pub struct ThreadGroup {
+    m: std::sync::Mutex<Vec<(u64, u64)>>, // (priority, id) of live children
+    cv: std::sync::Condvar,
+    next_id: AtomicU64,
+}
+
+impl ThreadGroup {
+    pub fn new() -> Arc<ThreadGroup> {
+        Arc::new(ThreadGroup { m: std::sync::Mutex::new(Vec::new()), cv: std::sync::Condvar::new(), next_id: AtomicU64::new(0) })
+    }
+}
+
+const SIBLING_GRACE: std::time::Duration = std::time::Duration::from_millis(2);
+const SIBLING_WAIT: std::time::Duration = std::time::Duration::from_millis(250);
+pub static SEEN_SIBLING_REORDER: AtomicU64 = AtomicU64::new(0);
+
 struct Tramp {
     start: extern "C" fn(*mut c_void) -> *mut c_void,
     arg: *mut c_void,
     seed: u64,
+    group: Arc<ThreadGroup>,
+    prio: u64,
+    id: u64,
 }
 
 extern "C" fn child_thread_tramp(p: *mut c_void) -> *mut c_void {
     let t = unsafe { Box::from_raw(p as *mut Tramp) };
     let _ = CHILD_ENTROPY.try_with(|c| c.set(Some(Prng::new(t.seed))));
-    (t.start)(t.arg)
+    let me = (t.prio, t.id);
+    {
+        // always: the first child of a burst cannot know that siblings are about to follow
+        std::thread::sleep(SIBLING_GRACE);
+        let deadline = std::time::Instant::now() + SIBLING_WAIT;
+        let mut g = t.group.m.lock().unwrap_or_else(|e| e.into_inner());
+        let mut waited = false;
+        loop {
+            let blocked = g.iter().any(|o| *o != me && *o < me);
+            if !blocked {
+                break;
+            }
+            let now = std::time::Instant::now();
+            if now >= deadline {
+                break;
+            }
+            waited = true;
+            let (ng, _) = t.group.cv.wait_timeout(g, deadline - now).unwrap_or_else(|e| e.into_inner());
+            g = ng;
+        }
+        if waited && g.iter().any(|o| o.1 > me.1) {
+            SEEN_SIBLING_REORDER.fetch_add(1, Ordering::Relaxed);
+        }
+    }
+    let r = (t.start)(t.arg);
+    {
+        let mut g = t.group.m.lock().unwrap_or_else(|e| e.into_inner());
+        g.retain(|o| *o != me);
+        t.group.cv.notify_all();
+    }
+    r
 }
 
 type PthreadCreate = unsafe extern "C" fn(*mut libc::pthread_t, *const libc::pthread_attr_t, extern "C" fn(*mut c_void) -> *mut c_void, *mut c_void) -> c_int;
@@ -395,11 +454,24 @@ pub unsafe extern "C" fn pthread_create(
     if let Some(c) = ctx() {
         SEEN_CHILD_THREADS.fetch_add(1, Ordering::Relaxed);
         let seed = c.entropy.next_u64();
-        let boxed = Box::into_raw(Box::new(Tramp { start, arg, seed }));
+        let group = c.threads.get_or_insert_with(ThreadGroup::new).clone();
+        // the priority comes from a stream of its own (derived from the child's seed), so the
+        // parent's entropy stream is consumed exactly as before this seam existed
+        let prio = Prng::new(seed ^ 0x7468_7265_6164_7072).next_u64();
+        let id = group.next_id.fetch_add(1, Ordering::Relaxed);
+        c.in_shim = true;
+        if let Ok(mut g) = group.m.lock() {
+            g.push((prio, id));
+        }
+        let boxed = Box::into_raw(Box::new(Tramp { start, arg, seed, group: group.clone(), prio, id }));
         let r = unsafe { real(thread, attr, child_thread_tramp, boxed as *mut c_void) };
         if r != 0 {
             drop(unsafe { Box::from_raw(boxed) });
+            if let Ok(mut g) = group.m.lock() {
+                g.retain(|o| *o != (prio, id));
+            }
         }
+        c.in_shim = false;
         return r;
     }
     unsafe { real(thread, attr, start, arg) }
